@@ -31,7 +31,7 @@ All twenty properties are claimed in `MANIFEST.json`; `not_applicable` is empty.
 
 | id | model (`Model/`) | property theorems (`Props/Cxx.lean`) | decided on the implementation only (partial) |
 |----|------------------|--------------------------------------|-----------------------------------------------|
-| C01 | Prim, Prog, Header, Body | `read_write`, `write_ok_decodes`, `write_fails_loudly`, `write_dim_mismatch`, `missing_iff_conf_zero` | numpy dtype narrowing, `struct` |
+| C01 | Prim, Prog, Header, Body | `read_write`, `write_ok_decodes`, `write_injective` (two poses written to the same bytes are the same pose up to `canon`), `write_fails_loudly`, `write_dim_mismatch`, `missing_iff_conf_zero` | numpy dtype narrowing, `struct` |
 | C02 | same, SpecEnc (`specFile`) | `write_layout`, `read_of_reference`, `rewrite_identity`, `write_read_write` | the Lean reference encoder is compared byte for byte with an independent Python one (`harness/refenc.py`) |
 | C03 | Stream, Body (windows) | `window_eq_slice`, `stream_eq_bytes`, `stream_window_eq_slice`, `cache_neutral`, `consumption_bound`, `adjacent_windows_tile` (frames [s, s+n) then [s+n, s+n+m) are exactly [s, s+n+m): nothing lost, duplicated or reordered at a window boundary), `slice_data_of_slice` (a window of a window), rejection lemmas | time→frame rounding evaluated at `Float` |
 | C04 | Body (v0.0 / v0.1), SpecEnc (`specFileV01`, `specFileV00`) | `readV01_enc`, `legacy_rewrite_v01`, `readV00_enc`, `legacy_rewrite_v00`, `other_version_refused`, `v00_window_ignored`, `v01_window_eq_slice`, `legacy_stream_eq_bytes` | numpy `column_stack` / `ma.concatenate` error behaviour on irregular v0.0 files |
